@@ -140,7 +140,11 @@ class Proj:
     def pick(self, name: str, choices: T.Sequence[T.Any]) -> T.Any:
         """Seeded choice that a directed project can pin (the rng is consumed either way)."""
         v = self.rng.choice(list(choices))
-        return self.force.get(name, v)
+        base = name.rsplit('.', 1)[0]
+        for key in (name, base if name.rsplit('.', 1)[-1].isdigit() else name):   # 'libs.kind.2' falls back to 'libs.kind'
+            if key in self.force and self.force[key] in choices:
+                return self.force[key]
+        return v
 
     def flip(self, name: str, prob: float) -> bool:
         v = self.rng.random() < prob
@@ -501,7 +505,7 @@ def blk_libs(P: Proj, p: str, d: str) -> None:
     P.ntargets += 1
     kinds: T.List[str] = []
     for i in range(n):
-        kind = P.pick('libs.kind', ['static_library', 'static_library', 'shared_library', 'both_libraries'])
+        kind = P.pick(f'libs.kind.{i}', ['static_library', 'static_library', 'shared_library', 'both_libraries'])
         kinds.append(kind)
         nm = f'{p}l{i}'
         calls = []
@@ -524,6 +528,8 @@ def blk_libs(P: Proj, p: str, d: str) -> None:
             else:
                 link = f', {how}: {tgt}'
             P.feat('libs:' + how)
+            if how in ('link_whole', 'dep-whole') and kind != 'static_library':
+                P.feat('shared-link_whole-static')
         elif rng.random() < 0.5:
             used = P.take(1, 1.0)
         um, uc = P.use_of(used, rng)
@@ -550,6 +556,16 @@ def blk_libs(P: Proj, p: str, d: str) -> None:
             P.feat('extract_objects')
             P.ntargets += 1
             P.exes.append({'name': f'{p}xo', 'path': P.path(d, f'{p}xo'), 'stdout': f'{p}xo {P.val["f_" + p + "l0"]}\n'})
+    statics = [i for i in range(n) if kinds[i] == 'static_library']
+    if P.flip('libs.exe_whole', 0.35) and statics:
+        # an executable that whole-links a static library (plugins idiom): its link step needs the archive itself
+        j = P.rng.choice(statics)
+        P.files[P.path(d, f'{p}wx.c')] = (f'#include <stdio.h>\nint f_{p}l{j}(void);\n'
+                                          f'int main(void) {{ printf("{p}wx %d\\n", f_{p}l{j}()); return 0; }}\n')
+        P.emit(d, f"{p}_wx = executable('{p}wx', '{p}wx.c', link_whole: {p}_l{j})")
+        P.feat('exe-link_whole')
+        P.ntargets += 1
+        P.exes.append({'name': f'{p}wx', 'path': P.path(d, f'{p}wx'), 'stdout': f'{p}wx {P.val["f_" + p + "l" + str(j)]}\n'})
     macros = [hm]
     extra_src = ''
     cand = [i for i in range(n) if kinds[i] != 'both_libraries']
@@ -831,8 +847,52 @@ def blk_pch(P: Proj, p: str, d: str) -> None:
     P.exports.append(Export(f'{p}_dep', [f'f_{p}_a'], []))
 
 
+def blk_same_name(P: Proj, p: str, d: str) -> None:
+    """Two custom targets in different directories produce equally NAMED outputs; one consumer needs both, through
+    depends: / as target objects in its command / through generator(depends:)."""
+    rng = P.rng
+    P.feat('same-name-outputs')
+    tot = 0
+    for sub in ('a', 'b'):
+        nm = f'{p}{sub}'
+        dd = nm                     # directories <p>a/ and <p>b/ directly under the source root
+        tot += P.deffile(dd, nm)
+        P.emit(dd, f"{nm}_ver = custom_target('{nm}_ver', input: '{nm}.def', output: 'version.h',\n"
+                   f"  command: [py, gen, 'hdr', '{nm}', '@OUTPUT@', '@INPUT@'])")
+    how = P.pick('same_name.how', ['depends', 'command', 'generator-depends'])
+    P.feat('same-name-outputs:' + how)
+    own = P.deffile(d, p)
+    P.val['V_' + p] = tot + own
+    hm = (f'{p}.h', 'V_' + p)
+    order = [f'{p}a_ver', f'{p}b_ver']
+    if rng.random() < 0.5:
+        order.reverse()
+    srcs = f'{p}_h'
+    if how == 'depends':
+        P.emit(d, f"{p}_h = custom_target('{p}_h', input: '{p}.def', output: '{p}.h', depends: [{order[0]}, {order[1]}],\n"
+                  f"  command: [py, gen, 'hdr', '{p}', '@OUTPUT@', '@INPUT@', {order[0]}.full_path(), {order[1]}.full_path()])")
+    elif how == 'command':
+        P.emit(d, f"{p}_h = custom_target('{p}_h', input: '{p}.def', output: '{p}.h',\n"
+                  f"  command: [py, gen, 'hdr', '{p}', '@OUTPUT@', '@INPUT@', {order[0]}, {order[1]}])")
+    else:
+        P.emit(d, f"{p}_g = generator(py, arguments: [gen_path, 'hdr', '@BASENAME@', '@OUTPUT@', '@INPUT@',\n"
+                  f"    {order[0]}.full_path(), {order[1]}.full_path()],\n"
+                  f"  output: '@BASENAME@.h', depends: [{order[0]}, {order[1]}])")
+        srcs = f"{p}_g.process('{p}.def')"
+    P.csrc(d, f'{p}_a.c', p + '_a', [hm], [])
+    P.emit(d, f"{p}_lib = {_libfn(rng)}('{p}l', '{p}_a.c', {srcs})")
+    if how == 'generator-depends':
+        P.emit(d, f"{p}_dep = declare_dependency(link_with: {p}_lib)")
+        P.exports.append(Export(f'{p}_dep', [f'f_{p}_a'], []))
+    else:
+        P.emit(d, f"{p}_dep = declare_dependency(link_with: {p}_lib, sources: {p}_h)")
+        P.feat('declare_dependency-sources')
+        P.exports.append(Export(f'{p}_dep', [f'f_{p}_a'], [hm]))
+    P.ntargets += 4
+
+
 BLOCKS = ['ct_header', 'generator', 'ct_chain', 'built_tool', 'libs', 'subproject', 'link_depends',
-          'exe_capture', 'gensrc_inc', 'genlist_chain', 'ct_object', 'preprocess', 'configure_mix', 'pch']
+          'exe_capture', 'gensrc_inc', 'genlist_chain', 'ct_object', 'preprocess', 'configure_mix', 'pch', 'same_name']
 
 
 def generate(seed: T.Any, index: int = 0, force_blocks: T.Optional[T.Sequence[str]] = None,
@@ -900,6 +960,8 @@ def generate(seed: T.Any, index: int = 0, force_blocks: T.Optional[T.Sequence[st
             blk_configure_mix(P, p, d)
         elif b == 'pch':
             blk_pch(P, p, d)
+        elif b == 'same_name':
+            blk_same_name(P, p, d)
         else:
             raise ValueError(b)
         if d:
@@ -925,7 +987,15 @@ def generate(seed: T.Any, index: int = 0, force_blocks: T.Optional[T.Sequence[st
         expr = ' + '.join(['0'] + [m for _, m in um] + [f'{c}()' for c in calls])
         src.append(f'int main(void) {{ printf("{nm} %d\\n", {expr}); return 0; }}')
         P.files[P.path(d, f'{nm}_main.c')] = '\n'.join(src) + '\n'
-        if used and P.flip('app.nested_dep', 0.3):
+        if used and P.flip('app.partial', 0.25):
+            # compile side and link side of an umbrella dependency taken apart with partial_dependency(): the generated
+            # headers live in dependencies NESTED in the umbrella and must survive sources: true
+            P.emit(d, f"{nm}_umb = declare_dependency(dependencies: [{', '.join(e.var for e in used)}])")
+            P.emit(d, f"{nm}_cdep = {nm}_umb.partial_dependency(compile_args: true, includes: true, sources: true)")
+            P.emit(d, f"{nm}_ldep = {nm}_umb.partial_dependency(link_args: true, links: true)")
+            P.emit(d, f"executable('{nm}', '{nm}_main.c'{extra}, dependencies: [{nm}_cdep, {nm}_ldep])")
+            P.feat('partial_dependency-sources-nested')
+        elif used and P.flip('app.nested_dep', 0.3):
             # the generated headers travel through a dependency of a dependency
             P.emit(d, f"{nm}_deps = declare_dependency(dependencies: [{', '.join(e.var for e in used)}])")
             P.emit(d, f"executable('{nm}', '{nm}_main.c'{extra}, dependencies: {nm}_deps)")
